@@ -8,8 +8,13 @@ import (
 	"os"
 	"os/exec"
 	"strings"
+	"sync"
 	"time"
 )
+
+// gil serialises symbolic interpretation across harness goroutines (go/types and go/ssa lazily complete
+// shared data structures); it is released while a solver query is in flight, where the time goes.
+var gil sync.Mutex
 
 type Solver struct {
 	kind    string // z3 | z3-new | cvc5
@@ -25,6 +30,8 @@ type Solver struct {
 	NErr    int
 	Time    time.Duration
 	lines   chan string
+	Fallbacks  int
+	FallbackBy string
 }
 
 func NewSolver(kind string, ctx *Ctx, logPath string) *Solver {
@@ -136,8 +143,10 @@ func (s *Solver) Check(as []*Term, timeoutMs int, wantModel bool) (string, map[s
 		fmt.Fprintf(&sb, "(assert %s)\n", a.ref())
 	}
 	sb.WriteString("(check-sat)\n")
+	gil.Unlock()
 	s.send(sb.String())
 	res, errSeen := s.readResult(time.Duration(timeoutMs)*time.Millisecond + 10*time.Second)
+	gil.Lock()
 	if res == "dead" {
 		s.restart()
 		s.NUnk++
@@ -171,8 +180,22 @@ func (s *Solver) Check(as []*Term, timeoutMs int, wantModel bool) (string, map[s
 	case "unsat":
 		s.NUnsat++
 	default:
-		s.NUnk++
 		res = "unknown"
+		// portfolio: ask the other installed solvers before giving up (only for real verdict queries)
+		if timeoutMs >= 10000 {
+			r2, mi2, mb2, who := s.fallback(as, timeoutMs, wantModel)
+			if r2 != "unknown" {
+				s.Fallbacks++
+				s.FallbackBy = who
+				if r2 == "sat" {
+					s.NSat++
+				} else {
+					s.NUnsat++
+				}
+				return r2, mi2, mb2
+			}
+		}
+		s.NUnk++
 	}
 	return res, mi, mb
 }
